@@ -86,6 +86,11 @@ def gen_enum(seed, k):
         if rng.random() < 0.5 and nv > 0:
             int_repr = rng.choice(int_reprs)
             reprs.append(int_repr)
+            if rng.random() < 0.5:
+                # both hints in ONE attribute list, in either order
+                two = [reprs[0], int_repr]
+                rng.shuffle(two)
+                reprs = [", ".join(two)]
     # discriminants: explicit values need a primitive repr unless the enum is field-less
     disc = [None] * nv
     if (not has_fields or int_repr) and rng.random() < 0.7 and nv:
@@ -177,6 +182,9 @@ def gen_enum(seed, k):
             maybe_refused.append(True)
             continue
         forms = ["%d" % d]
+        if d < 0 and -d < 2 ** 63:
+            # a negative literal in another radix, with separators or with the suffix of the tag's type is still a literal
+            forms += ["-0x%X" % -d, "-0b%s" % bin(-d)[2:], "-0o%o" % -d, "-%d%s" % (-d, suffix)] + (["-" + "{:,}".format(-d).replace(",", "_")] if -d >= 1000 else [])
         if d >= 0:
             forms += ["0x%X" % d, "%d_%s" % (d, suffix) if False else "%d%s" % (d, suffix), "0b%s" % bin(d)[2:], "0o%o" % d]
             if d >= 1000:
@@ -401,6 +409,13 @@ def judge_obs(chk, which, cases, obs, bad_base, dropped):
             chk.violation("refused-with-primitive-repr|%s" % re.sub(r"`[^`]*`", "`_`", d["message"])[:60],
                           "the enum has a primitive representation (%s) and valid discriminants, educe refuses it: %s\n%s"
                           % ("+".join(e["reprs"]), d["message"], text), files)
+            continue
+        if cid in dropped and not e.get("maybe_refused") and any(d.get("code") is None for d in dropped[cid]):
+            # every explicit discriminant is an integer literal (possibly negative, in any radix): nothing educe documents
+            # as out of reach
+            d = next(d for d in dropped[cid] if d.get("code") is None)
+            chk.violation("refused-literal-discriminants|%s" % re.sub(r"`[^`]*`", "`_`", d["message"])[:60],
+                          "the discriminants are integer literals, educe refuses the enum: %s\n%s" % (d["message"], text), files)
             continue
         if cid in dropped:
             # the enum is valid Rust (baseline) but the derive does not compile: that is C01's finding;
